@@ -215,6 +215,14 @@ theorem C07_schema_ref_shapes (tableLike : Bool) (parts : Nat) :
 theorem C07_schema_check_by_flag_wrong :
     schemaNoDatabaseByFlag true (schemaNode false 1) = false ∧ schemaNoDatabase (schemaNode false 1) = true := by decide
 
+/-- known finding `C07/cte-reference-needs-context`: the pre-check looks at the first table expression of the statement, and a
+    reference to the statement's own CTE looks like an unqualified table: `WITH c AS (SELECT * FROM db1.s1.t) SELECT * FROM c`
+    is refused with 90105 in a session without a current database although nothing in it needs one (the engine would accept it). -/
+theorem finding_C07_cte_reference_needs_context :
+    execCall (fun (d : Nat) (_ : Nat) => .ok d) { duck := 0 } ⟨true, true, 0, .none, []⟩ = ({ duck := 0 }, .programming c90105) ∧
+    execCall (fun (d : Nat) (_ : Nat) => .ok d) { duck := 0 } ⟨false, false, 0, .none, []⟩ = ({ duck := 0 }, .ok) := by
+  constructor <;> rfl
+
 /-! ### the cause × position table -/
 
 /-- the full statement over the scenario table: every way of referring to something missing or duplicate, at
